@@ -543,10 +543,10 @@ func (in *inliner) inlinable(fd *ast.FuncDecl, obj *types.Func) bool {
 			if !top {
 				ok = false
 			}
-			for _, a := range x.Call.Args {
-				if !pureExpr(a) {
-					ok = false
-				}
+			// arguments that are not plain operands are evaluated into temporaries where the defer
+			// statement stands (that is when Go evaluates them) and the replayed call uses those
+			if x.Call.Ellipsis.IsValid() {
+				ok = false
 			}
 			if _, isLit := x.Call.Fun.(*ast.FuncLit); isLit {
 				ok = false
@@ -1078,7 +1078,7 @@ func (in *inliner) expand(f *ast.File, encl *ast.FuncDecl, s ast.Stmt, c *ast.Ca
 	fmt.Fprintf(&hoist, "//line %s:%d\n", bodyStart.Filename, bodyStart.Line+1)
 	hoist.WriteString(body)
 	// deferred calls at the natural end, then leave
-	hoist.WriteString("\n" + in.deferText(cf, fd, len(fd.Body.List)) + "break " + label + " } } }\n")
+	hoist.WriteString("\n" + in.deferText(cf, fd, len(fd.Body.List), k) + "break " + label + " } } }\n")
 
 	// replace the call by its result(s)
 	repl := strings.Join(rnames, ", ")
@@ -1107,14 +1107,22 @@ func (in *inliner) expand(f *ast.File, encl *ast.FuncDecl, s ast.Stmt, c *ast.Ca
 }
 
 // deferText: the deferred calls registered by the top-level statements before index upto, LIFO.
-func (in *inliner) deferText(cf *ast.File, fd *ast.FuncDecl, upto int) string {
+func (in *inliner) deferText(cf *ast.File, fd *ast.FuncDecl, upto int, k string) string {
 	var calls []string
 	for i, s := range fd.Body.List {
 		if i >= upto {
 			break
 		}
 		if d, ok := s.(*ast.DeferStmt); ok {
-			calls = append(calls, in.text(cf, d.Call.Pos(), d.Call.End()))
+			var args []string
+			for ai, a := range d.Call.Args {
+				if pureExpr(a) {
+					args = append(args, strings.ReplaceAll(in.text(cf, a.Pos(), a.End()), "\n", " "))
+				} else {
+					args = append(args, fmt.Sprintf("__d%d_%d_%s", i, ai, k))
+				}
+			}
+			calls = append(calls, in.text(cf, d.Call.Fun.Pos(), d.Call.Fun.End())+"("+strings.Join(args, ", ")+")")
 		}
 	}
 	var sb strings.Builder
@@ -1167,7 +1175,15 @@ func (in *inliner) rewriteBody(cf *ast.File, fd *ast.FuncDecl, rnames, named []s
 		case *ast.FuncLit:
 			return false
 		case *ast.DeferStmt:
-			eds = append(eds, ed{in.off(x.Pos()), in.off(x.End()), "_ = 0"})
+			txt := "_ = 0"
+			di := topIndex(x)
+			for ai, a := range x.Call.Args {
+				if !pureExpr(a) {
+					tmp := fmt.Sprintf("__d%d_%d_%s", di, ai, k)
+					txt += "; " + tmp + " := " + strings.ReplaceAll(in.text(cf, a.Pos(), a.End()), "\n", " ") + "; _ = " + tmp
+				}
+			}
+			eds = append(eds, ed{in.off(x.Pos()), in.off(x.End()), txt})
 			return false
 		case *ast.LabeledStmt:
 			eds = append(eds, ed{in.off(x.Label.Pos()), in.off(x.Label.End()), x.Label.Name + "_" + k})
@@ -1200,7 +1216,7 @@ func (in *inliner) rewriteBody(cf *ast.File, fd *ast.FuncDecl, rnames, named []s
 					sb.WriteString(strings.Join(rnames, ", ") + " = " + strings.Join(ns, ", ") + "; ")
 				}
 			}
-			sb.WriteString(in.deferText(cf, fd, topIndex(x)))
+			sb.WriteString(in.deferText(cf, fd, topIndex(x), k))
 			sb.WriteString("break " + label + " }")
 			eds = append(eds, ed{in.off(x.Pos()), in.off(x.End()), sb.String()})
 			return false
